@@ -66,5 +66,21 @@ def main():
     print("SUMMARY control alarms: %s" % [r["check"] for r in results if r["id"] == "unchanged" and r["rc"] != 0])
 
 
+def _evidence_guard(fn):
+    """a sweep runs the checks on CHANGED trees: keep the evidence files of the unchanged tree as they were"""
+    import shutil, tempfile
+    ev = os.path.join(HERE, "evidence")
+    keep = tempfile.mkdtemp(prefix="ev_keep_", dir=os.path.join(HERE, "build"))
+    for p in glob.glob(os.path.join(ev, "*.json")):
+        shutil.copy2(p, keep)
+    try:
+        fn()
+    finally:
+        for p in glob.glob(os.path.join(keep, "*.json")):
+            shutil.copy2(p, ev)
+        shutil.rmtree(keep, ignore_errors=True)
+
+
 if __name__ == "__main__":
-    main()
+    os.makedirs(os.path.join(HERE, "build"), exist_ok=True)
+    _evidence_guard(main)
